@@ -184,7 +184,7 @@ impl Profile {
             Profile::CrcError => "crc-error@1",
             Profile::HeaderError => "header-error@1",
             Profile::SpuriousThenDoneSoon => "spurious,done+1",
-            Profile::SpuriousThenDoneLate => "spurious,done+6",
+            Profile::SpuriousThenDoneLate => "spurious x12,done+6",
         }
     }
     fn class(self) -> &'static str {
@@ -211,7 +211,13 @@ impl Profile {
             Profile::CrcError => vec![ev(EvKind::CrcError, 1), ev(EvKind::Done, 0)],
             Profile::HeaderError => vec![ev(EvKind::HeaderError, 1), ev(EvKind::Timeout, 6), ev(EvKind::Done, 0)],
             Profile::SpuriousThenDoneSoon => vec![ev(EvKind::Spurious, 1), ev(EvKind::Done, 1)],
-            Profile::SpuriousThenDoneLate => vec![ev(EvKind::Spurious, 1), ev(EvKind::Done, 6)],
+            // a burst of a dozen interrupts without any flag, then the completion: the operation is still
+            // running all the while, and ends when it ends
+            Profile::SpuriousThenDoneLate => {
+                let mut v = vec![ev(EvKind::Spurious, 1); 12];
+                v.push(ev(EvKind::Done, 6));
+                v
+            }
         }
     }
 }
